@@ -87,21 +87,57 @@ func (p *Program) applyLock(s lockState, in ssa.Instruction) {
 	}
 }
 
-// lockSets returns the lock state before every instruction of fn.
+// lockSets returns the lock state before every instruction of fn and of the transparent helpers it calls.
 func (p *Program) lockSets(fn *ssa.Function) map[ssa.Instruction]lockState {
+	res := map[ssa.Instruction]lockState{}
+	entry := lockState{}
+	if site := p.helperSite(fn); site != nil {
+		// a helper analysed on its own starts with the state at its call site
+		if _, isCall := site.(*ssa.Call); isCall {
+			if st, ok := p.lockSets(site.Parent())[site]; ok {
+				entry = st
+			}
+		}
+	}
+	p.lockSetsInto(fn, entry, res, 0)
+	return res
+}
+
+// lockSetsInto analyses fn starting from entry, records per-instruction states into res and returns the
+// state on exit (meet over the returns).
+func (p *Program) lockSetsInto(fn *ssa.Function, entry lockState, res map[ssa.Instruction]lockState, depth int) lockState {
+	apply := func(cur lockState, i ssa.Instruction, record bool) {
+		if h := transparentCallee(i); h != nil && depth < 5 {
+			var sink map[ssa.Instruction]lockState
+			if record {
+				sink = res
+			} else {
+				sink = map[ssa.Instruction]lockState{}
+			}
+			out := p.lockSetsInto(h, cur, sink, depth+1)
+			for k := range cur {
+				delete(cur, k)
+			}
+			for k, v := range out {
+				cur[k] = v
+			}
+			return
+		}
+		p.applyLock(cur, i)
+	}
 	in := map[*ssa.BasicBlock]lockState{}
 	out := map[*ssa.BasicBlock]lockState{}
 	if len(fn.Blocks) == 0 {
-		return nil
+		return entry
 	}
-	in[fn.Blocks[0]] = lockState{}
+	in[fn.Blocks[0]] = entry.clone()
 	changed := true
 	for iter := 0; changed && iter < 50; iter++ {
 		changed = false
 		for _, b := range fn.Blocks {
 			var st lockState
 			if b == fn.Blocks[0] {
-				st = lockState{}
+				st = entry.clone()
 			} else {
 				first := true
 				for _, pr := range b.Preds {
@@ -126,7 +162,7 @@ func (p *Program) lockSets(fn *ssa.Function) map[ssa.Instruction]lockState {
 			}
 			cur := st.clone()
 			for _, i := range b.Instrs {
-				p.applyLock(cur, i)
+				apply(cur, i, false)
 			}
 			if old, ok := out[b]; !ok || !equalLS(old, cur) {
 				out[b] = cur
@@ -134,7 +170,8 @@ func (p *Program) lockSets(fn *ssa.Function) map[ssa.Instruction]lockState {
 			}
 		}
 	}
-	res := map[ssa.Instruction]lockState{}
+	var exit lockState
+	first := true
 	for _, b := range fn.Blocks {
 		st, ok := in[b]
 		if !ok {
@@ -143,10 +180,22 @@ func (p *Program) lockSets(fn *ssa.Function) map[ssa.Instruction]lockState {
 		cur := st.clone()
 		for _, i := range b.Instrs {
 			res[i] = cur.clone()
-			p.applyLock(cur, i)
+			apply(cur, i, true)
+		}
+		if len(b.Instrs) > 0 {
+			if _, isRet := b.Instrs[len(b.Instrs)-1].(*ssa.Return); isRet && b != fn.Recover {
+				if first {
+					exit, first = cur.clone(), false
+				} else {
+					exit = meet(exit, cur)
+				}
+			}
 		}
 	}
-	return res
+	if first {
+		exit = lockState{}
+	}
+	return exit
 }
 
 // ---------------------------------------------------------------------------
@@ -169,7 +218,7 @@ func (p *Program) fieldAccesses(owners ...string) []fieldAccess {
 		want[o] = true
 	}
 	var out []fieldAccess
-	for _, fn := range p.FuncList {
+	for _, fn := range p.allFuncs() {
 		for _, b := range fn.Blocks {
 			for _, in := range b.Instrs {
 				switch x := in.(type) {
